@@ -4833,7 +4833,9 @@ func (p *printer) printStmt(stmt js_ast.Stmt, flags printStmtFlags) {
 		p.addSourceMapping(stmt.Loc)
 		p.printIndent()
 		p.printSpaceBeforeIdentifier()
-		p.printQuotedUTF16(s.Value, 0)
+
+		// A directive containing a line continuation is no longer a directive
+		p.printQuotedUTF16(s.Value, printQuotedNoWrap)
 		p.printSemicolonAfterStatement()
 
 	case *js_ast.SBreak:
@@ -5011,7 +5013,7 @@ func Print(tree js_ast.AST, symbols ast.SymbolMap, r renamer.Renamer, options Op
 	// Add the top-level directive if present
 	for _, directive := range tree.Directives {
 		p.printIndent()
-		p.printQuotedUTF8(directive, 0)
+		p.printQuotedUTF8(directive, printQuotedNoWrap)
 		p.print(";")
 		p.printNewline()
 	}
